@@ -241,3 +241,96 @@ def run(P, rep, tier):
     ok = any(pstr(strip(ev['e'][3])) == 'feedback_row_index' for ev in fb)
     rep.ob('C24.FEED', 'feedback-row', ok, asg.loc(fb[0]) if fb else asg.loc(), 'feedback task carries the row whose first segment became ready')
     rep.floor('C24.FEED', 3)
+
+    # ---------------- GRID: the segment grid never has more columns / rows than the superblock grid it partitions.
+    # enc_dec_segments_init(seg, cols, rows, w_sb, h_sb): every use of `cols` (`rows`) sees only definitions that were
+    # clamped by  min(., w_sb)  (min(., h_sb)) - in the callee, or at every call site against the very expression passed as
+    # the dimension.  With more segment rows/bands than superblock rows/bands the grid has empty segments inside the
+    # start/end range whose dependency counts are never / wrongly released (hang or premature start).
+    from engine.reach import reaching
+    init = P.fn('enc_dec_segments_init')
+    if len(init.params) < 5:
+        raise AnalysisBroken('enc_dec_segments_init no longer takes (segments, cols, rows, w_sb, h_sb)')
+
+    def is_min(e, c):
+        """bound expression b if e is min(c, b) written as a conditional, else None"""
+        e = strip(e)
+        if not e or e[0] != 'q':
+            return None
+        cnd, t, f_ = strip(e[1]), strip(e[2]), strip(e[3])
+        if not cnd or cnd[0] != 'b' or cnd[1] not in ('<', '<=', '>', '>='):
+            return None
+        l, r = pstr(strip(cnd[2])), pstr(strip(cnd[3]))
+        ts, fs = pstr(t), pstr(f_)
+        if cnd[1] in ('<', '<='):
+            small, big = l, r
+        else:
+            small, big = r, l
+        # (small < big) ? small : big  ==  min
+        if {small, big} == {ts, fs} and ts == small and c in (small, big):
+            return strip(cnd[3]) if small == c and cnd[1] in ('<', '<=') else (strip(cnd[2]) if cnd[1] in ('>', '>=') and small == c else
+                                                                            (strip(cnd[2]) if pstr(strip(cnd[2])) != c else strip(cnd[3])))
+        return None
+
+    def clamped(f, at, cname, bound, depth=0):
+        """every definition of local/param `cname` reaching `at` is min(cname-chain, bound)"""
+        if depth > 6:
+            return False, 'definition chain too deep'
+        defs = reaching(f).at(at, cname)
+        if not defs:
+            return False, 'no reaching definition'
+        for d in defs:
+            if isinstance(d, tuple):
+                return False, 'the unclamped incoming value of %s' % cname
+            e = d.get('e')
+            if d['k'] == 'call' or e is None:
+                return False, 'opaque definition at %s' % f.loc(d)
+            rhs = e if d['k'] == 'decl' else (e[3] if e[0] == 'a' and e[1] == '=' else None)
+            if rhs is None:
+                return False, 'stepped at %s' % f.loc(d)
+            b = is_min(rhs, cname)
+            if b is None:
+                return False, '%s = %s at %s is not a min() clamp' % (cname, pstr(strip(rhs))[:50], f.loc(d))
+            if pstr(b) == bound:
+                continue
+            ok, why = clamped(f, d, cname, bound, depth + 1)      # a further clamp by something else on an already clamped value
+            if not ok:
+                return False, why
+        return True, 'every reaching definition is min(%s, %s)' % (cname, bound)
+
+    for ci, di in ((1, 3), (2, 4)):
+        cname, dname = init.params[ci][0], init.params[di][0]
+        if any(pstr(strip(ev['e'][2])) == dname for ev in init.events(('st',)) if ev['e'][0] in ('a', 'u')):
+            raise AnalysisBroken('dimension parameter %s of enc_dec_segments_init is reassigned' % dname)
+        uses = []
+        for ev in init.events(('st', 'call', 'decl', 'ret', 'ix')):
+            e = ev.get('e')
+            if e is None:
+                continue
+            if ev['k'] == 'st' and e[0] == 'a' and e[1] == '=' and pstr(strip(e[2])) == cname and is_min(e[3], cname) is not None:
+                continue
+            if any(x[0] == 'v' and x[1] == cname for x in subexprs(e)) or (ev['k'] == 'ix' and any(x[0] == 'v' and x[1] == cname for x in subexprs(ev['i']))):
+                uses.append(ev)
+        if not uses:
+            raise AnalysisBroken('no use of %s in enc_dec_segments_init' % cname)
+        bad = None
+        for u in uses:
+            ok, why = clamped(init, u, cname, dname)
+            if not ok:
+                # the callee does not clamp on this path: every call site must
+                sites = [(g, cev) for g, cev in P.call_sites('enc_dec_segments_init')]
+                okc = bool(sites)
+                for g, cev in sites:
+                    a_c, a_d = strip(cev['e'][2][ci]), strip(cev['e'][2][di])
+                    if a_c[0] != 'v':
+                        okc = False; why = 'argument %s at %s is not a local' % (pstr(a_c), g.loc(cev)); break
+                    o2, w2 = clamped(g, cev, a_c[1], pstr(a_d))
+                    if not o2:
+                        okc = False; why = 'callee use at %s sees %s; caller %s passes %s: %s' % (init.loc(u), why, g.name, pstr(a_c), w2); break
+                if not okc:
+                    bad = (u, why)
+                    break
+        rep.ob('C24.GRID', 'enc_dec_segments_init/%s<=%s' % (cname, dname), bad is None, init.loc(bad[0]) if bad else init.loc(),
+               ('%d uses of %s all see min(%s, %s)' % (len(uses), cname, cname, dname)) if bad is None else
+               ('segment count %s can exceed the superblock dimension %s it partitions: %s' % (cname, dname, bad[1])))
+    rep.floor('C24.GRID', 2)
